@@ -122,6 +122,11 @@ def run(P, rep, tier):
         rep.ob('C07.D1c', 'fallback:' + ptr, ok, f.loc(ev), 'fallback of %s is %s' % (ptr, fn) + ('' if ok else ' - an ISA-suffixed function in the reference slot'))
     rep.floor('C07.D1c', 500)
     run_satsign(P, rep)
+    run_lanewidth(P, rep)
+    # the 16-bit lane capacity of the AVX2 variance family is as much a statement about kernel == C reference as about
+    # output independent of the instruction set: same rule, reported under this property too
+    from rules.C06 import run_acc16
+    run_acc16(P, rep, 'C07.ACC16')
 
 
 TYPEDEF_EQ = [{'uint8_t', 'unsignedchar', 'EbByte'}, {'int32_t', 'int'}, {'uint32_t', 'unsignedint', 'unsigned'}, {'int16_t', 'short'},
@@ -145,7 +150,7 @@ def _same_modulo_typedefs(sigs):
     return len(n) == 1
 
 
-SIGNED_SAT = re.compile(r'^_mm(256|512)?_(adds|subs)_epi(8|16)$')
+SIGNED_SAT = re.compile(r'^_mm(256|512)?_((adds|subs)_epi(8|16)|packs_epi(16|32))$')
 UNS_USE = re.compile(r'^_mm(256|512)?_(cvtepu(8|16)_epi(16|32|64)|minpos_epu16|min_epu(8|16)|max_epu(8|16)|avg_epu(8|16)|sad_epu8)$')
 WITNESS = """
 #include <immintrin.h>
@@ -162,31 +167,26 @@ unsigned svtw_satsign(const unsigned char *a, const unsigned char *b) {
 
 
 def satsign_sites(fns):
+    from engine.reach import ReachingDefs
     out = []
     for f in fns:
         if f.nocfg:
             continue
-        prod = {}
-        for ev in f.events(('decl', 'st')):
-            e = ev.get('e')
-            if e is None:
-                continue
-            name, rhs = (ev['n'], e) if ev['k'] == 'decl' else ((strip(e[2])[1], e[3]) if e[0] == 'a' and e[1] == '=' and strip(e[2])[0] == 'v' else (None, None))
-            if not name:
-                continue
-            r = strip(rhs)
-            if r and r[0] == 'c' and SIGNED_SAT.match(callee_name(r) or ''):
-                prod.setdefault(name, []).append((callee_name(r), ev))
-        if not prod:
+        if not any(x[0] == 'c' and SIGNED_SAT.match(callee_name(x) or '') for ev in f.events(('decl', 'st', 'call', 'ret')) if ev.get('e') is not None for x in subexprs(ev['e'])):
             continue
-        # a later plain redefinition of the variable by another operation ends the belief: keep it simple and sound for
-        # reporting - only variables whose every definition is a signed-saturating result are tracked
-        defs = {}
-        for ev in f.events(('decl', 'st')):
-            e = ev.get('e')
-            name = ev['n'] if ev['k'] == 'decl' else (strip(e[2])[1] if e is not None and e[0] == 'a' and strip(e[2])[0] == 'v' else None)
-            if name in prod:
-                defs[name] = defs.get(name, 0) + 1
+        rd = ReachingDefs(f)
+
+        def producer_of(dv):
+            """the signed-saturating intrinsic whose result this definition stores, or None"""
+            if isinstance(dv, tuple):
+                return None
+            e = dv.get('e')
+            if e is None:
+                return None
+            r = strip(e) if dv['k'] == 'decl' else (strip(e[3]) if dv['k'] == 'st' and e[0] == 'a' and e[1] == '=' else None)
+            if r is not None and r[0] == 'c' and SIGNED_SAT.match(callee_name(r) or ''):
+                return callee_name(r)
+            return None
         for ev in f.events(('decl', 'st', 'call', 'ret')):
             e = ev.get('e')
             if e is None:
@@ -199,8 +199,12 @@ def satsign_sites(fns):
                     continue
                 for a in x[2]:
                     a = strip(a)
-                    if a and a[0] == 'v' and a[1] in prod and defs.get(a[1]) == len(prod[a[1]]):
-                        out.append((f, ev, a[1], prod[a[1]][0][0], cn))
+                    if a and a[0] == 'v' and a[2] == 'l':
+                        # flow-sensitive: every definition reaching this use is a signed-saturating result
+                        ds = rd.at(ev, a[1])
+                        pcs = [producer_of(dv) for dv in ds]
+                        if ds and all(pcs):
+                            out.append((f, ev, a[1], pcs[0], cn))
                     elif a and a[0] == 'c' and SIGNED_SAT.match(callee_name(a) or ''):
                         out.append((f, ev, pstr(a)[:30], callee_name(a), cn))
     seen, uniq = set(), []
@@ -211,7 +215,7 @@ def satsign_sites(fns):
     return uniq
 
 
-def run_satsign(P, rep):
+def run_satsign(P, rep, rule='C07.SATSIGN'):
     d = compdb.extract_witness('c07_satsign', WITNESS, 'ASM_AVX2/EbComputeSAD_Intrinsic_AVX2.c')
     wf = [Fn(fd, d['unit'], 'witness', '') for fd in d['functions'] if fd.get('name') == 'svtw_satsign']
     pos = satsign_sites(wf)
@@ -224,7 +228,135 @@ def run_satsign(P, rep):
     sites = satsign_sites(kernels)
     rep.analysed['satsign'] = {'simd_functions': len(kernels), 'signed_saturating_results': nprod, 'positive_witness_matches': len(pos)}
     for f, ev, var, pc, uc in sites:
-        rep.ob('C07.SATSIGN', '%s/%s->%s' % (f.name, pc, uc), False, f.loc(ev),
-               '%s holds the result of %s (clamped to the signed range) and is consumed by %s as unsigned: for sums above the signed maximum the kernel returns the clamp while the C reference returns the sum' % (var, pc, uc))
-    rep.ob('C07.SATSIGN', 'all-kernels', not sites, 'Source/Lib', '%d signed-saturating 8/16-bit results in %d SIMD-unit functions; none is consumed as unsigned (witness pattern matched: rule is live)' % (nprod, len(kernels)))
-    rep.floor('C07.SATSIGN', 1)
+        rep.ob(rule, '%s/%s->%s' % (f.name, pc, uc), False, f.loc(ev),
+               '%s holds the result of %s (clamped to the signed range) and is consumed by %s as unsigned: a sum above the signed maximum arrives as the clamp, a negative packed value as a large unsigned one, while the C reference computes in wider / signed arithmetic' % (var, pc, uc))
+    rep.ob(rule, 'all-kernels', not sites, 'Source/Lib', '%d signed-saturating 8/16-bit results in %d SIMD-unit functions; none is consumed as unsigned (witness pattern matched: rule is live)' % (nprod, len(kernels)))
+    rep.floor(rule, 1)
+
+
+# ---------------- LANEWIDTH: a vector holding full 64-bit products (mul_epi32 / mul_epu32, or 64-bit sums of such) is
+# accumulated with a 32-bit (or narrower) lane addition: the carry from the low into the high half of each product is lost
+# once a lane's running sum passes 2^32, while the C reference accumulates in 64 bits.  Belief contradiction in the sense of
+# Engler et al.: the producer says "these are 64-bit lanes", the consumer treats them as two independent 32-bit lanes.
+# Decided flow-sensitively (reaching definitions of the vector local); a compiled positive witness keeps the rule live.
+WIDE_PROD = re.compile(r'^_mm(256|512)?_mul_ep[iu]32$')
+WIDE_KEEP = re.compile(r'^_mm(256|512)?_(add|sub)_epi64$')
+NARROW_ACC = re.compile(r'^_mm(256|512)?_(h?add|h?sub|adds|subs)_epi(8|16|32)$')
+WITNESS_LW = """
+#include <immintrin.h>
+unsigned long long svtw_lanewidth(const int *a, int n) {
+    __m256i acc = _mm256_setzero_si256();
+    for (int i = 0; i < n; i += 4) {
+        __m256i x = _mm256_cvtepi32_epi64(_mm_loadu_si128((const __m128i *)(a + i)));
+        x   = _mm256_mul_epi32(x, x);
+        acc = _mm256_add_epi32(acc, x);
+    }
+    return (unsigned long long)_mm256_extract_epi64(acc, 0);
+}
+"""
+
+
+def lanewidth_sites(fns):
+    from engine.reach import ReachingDefs
+    out = []
+    for f in fns:
+        if f.nocfg:
+            continue
+        if not any(WIDE_PROD.match(n or '') for ev, n in f.calls()) and \
+           not any(x[0] == 'c' and WIDE_PROD.match(callee_name(x) or '') for ev in f.events(('decl', 'st', 'ret')) if ev.get('e') is not None for x in subexprs(ev['e'])):
+            continue
+        rd = ReachingDefs(f)
+
+        def rhs_of(dv, name):
+            e = dv.get('e')
+            if e is None:
+                return None
+            if dv['k'] == 'decl':
+                return strip(e)
+            if dv['k'] == 'st' and e[0] == 'a' and e[1] == '=':
+                return strip(e[3])
+            return None
+
+        def wide(x, ev, depth=0):
+            """x certainly carries full-width 64-bit products at ev"""
+            x = strip(x)
+            if x is None or depth > 6:
+                return False
+            if x[0] == 'c':
+                cn = callee_name(x) or ''
+                if WIDE_PROD.match(cn):
+                    return True
+                if WIDE_KEEP.match(cn):
+                    return any(wide(a, ev, depth + 1) for a in x[2])
+                return False
+            if x[0] == 'v' and x[2] == 'l':
+                ds = rd.at(ev, x[1])
+                if not ds:
+                    return False
+                ok = False
+                for dv in ds:
+                    if isinstance(dv, tuple):
+                        return False
+                    r = rhs_of(dv, x[1])
+                    if r is None:
+                        # declaration without initialiser / setzero: neutral
+                        continue
+                    if r[0] == 'c' and re.match(r'^_mm(256|512)?_setzero_si(128|256|512)$', callee_name(r) or ''):
+                        continue
+                    if dv is ev:
+                        continue
+                    if wide(r, dv, depth + 1):
+                        ok = True
+                    else:
+                        return False
+                return ok
+            return False
+        for ev in f.events(('decl', 'st', 'call', 'ret')):
+            e = ev.get('e')
+            if e is None:
+                continue
+            for x in subexprs(e):
+                if x[0] != 'c' or not NARROW_ACC.match(callee_name(x) or ''):
+                    continue
+                # the target of the statement, when this call is its whole right-hand side
+                tgt = None
+                if ev['k'] == 'decl' and strip(e) is x:
+                    tgt = ev['n']
+                elif ev['k'] == 'st' and e[0] == 'a' and e[1] == '=' and strip(e[3]) is x and strip(e[2])[0] == 'v':
+                    tgt = strip(e[2])[1]
+                args = [strip(a) for a in x[2]]
+                for ai, a in enumerate(args):
+                    if not wide(a, ev):
+                        continue
+                    others = [b for bi, b in enumerate(args) if bi != ai]
+                    # an accumulation: the other operand is the running sum the result is stored back into, or carries wide
+                    # products itself.  (Adding a small rounding constant to one product before a 64-bit shift is a different
+                    # idiom -- highbd iidentity -- whose safety depends on the value range; not decided here.)
+                    if any((b is not None and b[0] == 'v' and b[1] == tgt) or wide(b, ev) for b in others):
+                        out.append((f, ev, pstr(a)[:40], callee_name(x)))
+    seen, uniq = set(), []
+    for t in out:
+        k = (t[0].name, t[1].get('l'), t[2], t[3])
+        if k not in seen:
+            seen.add(k); uniq.append(t)
+    return uniq
+
+
+def run_lanewidth(P, rep, rule='C07.LANEWIDTH'):
+    d = compdb.extract_witness('c07_lanewidth', WITNESS_LW, 'ASM_AVX2/EbComputeSAD_Intrinsic_AVX2.c')
+    wf = [Fn(fd, d['unit'], 'witness', '') for fd in d['functions'] if fd.get('name') == 'svtw_lanewidth']
+    pos = lanewidth_sites(wf)
+    if len(pos) != 1:
+        raise AnalysisBroken('the positive witness of C07.LANEWIDTH matched %d times (expected 1): the lint is blind' % len(pos))
+    kernels = [f for f in P.fns if f.lib in ('Common', 'Encoder', 'Decoder') and not f.nocfg and f.sub.startswith('ASM_')]
+    nprod = sum(1 for f in kernels for ev in f.events(('decl', 'st', 'call', 'ret')) if ev.get('e') is not None
+                for x in subexprs(ev['e']) if x[0] == 'c' and WIDE_PROD.match(callee_name(x) or ''))
+    if nprod < 20:
+        raise AnalysisBroken('only %d full-width 32x32->64 products found in the SIMD units' % nprod)
+    sites = lanewidth_sites(kernels)
+    rep.analysed['lanewidth'] = {'simd_functions': len(kernels), 'wide_products': nprod, 'positive_witness_matches': len(pos)}
+    for f, ev, var, uc in sites:
+        rep.ob(rule, '%s/%s<-%s' % (f.name, uc, var), False, f.loc(ev),
+               '%s holds full 64-bit products (mul_epi32 / 64-bit sums of them) and is accumulated with %s: carries out of the low 32 bits of a lane are dropped, so once a lane sum passes 2^32 the kernel and its 64-bit C reference disagree' % (var, uc))
+    rep.ob(rule, 'all-kernels', not sites, 'Source/Lib', '%d 32x32->64 products in %d SIMD-unit functions; none is accumulated with a narrower lane addition (witness pattern matched: rule is live)' % (nprod, len(kernels)))
+    rep.floor(rule, 1)
